@@ -169,7 +169,7 @@ Definition q_ops : rops Q :=
 (* prod = x[i, k:] * y[j, :N-k] ; rxy[i,j,k] = prod.mean() *)
 Definition crosscov_entry (N k : nat) (xi yj : list Q) : Q :=
   let prod := zipw Qmult (skipn k xi) (firstn (N - k) yj) in
-  Qred (fold_left Qplus prod 0%Q / inject_Z (Z.of_nat (length prod))).
+  Qred (fold_left (fun acc v => Qred (acc + v)) prod 0%Q / inject_Z (Z.of_nat (length prod))).
 
 (* rxy has layout [i][j][k] (nc, nc, nlags); N = x.shape[1] *)
 Definition crosscov_vector (x y : list (list Q)) (nlags : nat) : list (list (list Q)) :=
